@@ -774,6 +774,7 @@ class ExpressionBC(BCBase):
     """
 
     names = ["virtual_point"]
+    homogeneous = False  # values may depend on the position along the boundary
 
     @fill_in_docstring
     def __init__(
